@@ -108,10 +108,11 @@ func ZZC04Assign() {
 	D := zzParam("D", 1)
 	types := zzTypes(D)
 	t := types[zzChoice("target", len(types))]
-	kind := zzChoice("kind", 6) // 0 variable, 1 constant literal, 2 empty literal, 3 expression of variables, 4/5 expression mixing a constant and a variable
+	kind := zzChoice("kind", 20) // 0 variable, 1 constant literal, 2 empty literal, 3 expression of variables, 4/5 expression mixing a constant and a variable, 6/7/8 literal that contains a composite variable
 	ctx := zzChoice("ctx", 4)   // 0 typed decl + assignment, 1 parameter, 2 variadic parameter, 3 return value
 	var val, setup, dyn string
 	want := false
+	rtPanic := false // the accepted program ends in a documented panic (element of an empty composite)
 	switch kind {
 	case 0, 3, 4, 5:
 		t2 := types[zzChoice("valtype", len(types))]
@@ -145,6 +146,89 @@ func ZZC04Assign() {
 			}
 		}
 		want = t == t2 || t == "any"
+	case 9, 10, 11, 12, 13, 14, 15:
+		// values taken out of variables, call results, type assertions and
+		// loop variables are assignable like variables
+		t2 := types[zzChoice("valtype", len(types))]
+		dyn = t2
+		if t2 == "any" {
+			dyn = "bool"
+		}
+		lit := zzLit(t2)
+		switch kind {
+		case 9: // element of an array variable
+			setup, val = "w:[]"+t2+"\nw = w + w\n", "w[0]"
+			rtPanic = true
+		case 10: // field of a map variable
+			setup, val = "w:{}"+t2+"\nw = w\n", "w.k"
+			rtPanic = true
+		case 11: // call result, grouped
+			if lit == "" {
+				zzAssume(false)
+			}
+			setup, val = "func g:"+t2+"\n    return "+lit+"\nend\n", "(g)"
+		case 12: // type assertion
+			if t2 == "any" || lit == "" {
+				zzAssume(false)
+			}
+			setup, val = "x:any\nx = "+lit+"\n", "x.("+t2+")"
+		case 13: // slice of a variable
+			if !zzIsArr(t2) && t2 != "string" {
+				zzAssume(false)
+			}
+			setup, val = "w:"+t2+"\n", "w[:]"
+		case 14: // element or slice of a literal
+			if lit == "" {
+				zzAssume(false)
+			}
+			val = "[" + lit + "][0]"
+		case 15:
+			if lit == "" || !zzIsArr(t2) {
+				zzAssume(false)
+			}
+			val = lit + "[:]"
+		}
+		want = t == t2 || t == "any"
+	case 16, 17:
+		// constant expressions convert like constants
+		t2 := types[zzChoice("valtype", len(types))]
+		lit := zzLit(t2)
+		if lit == "" || !(zzIsArr(t2) || t2 == "num" || t2 == "string" && kind == 16) {
+			zzAssume(false)
+		}
+		if kind == 16 {
+			val = lit + "+" + lit
+		} else {
+			val = lit + "*2"
+		}
+		dyn = t2
+		want = zzConvertible(t, t2)
+	case 18, 19:
+		zzAssume(false)
+	case 6, 7, 8:
+		// a literal that contains a composite variable is not a constant:
+		// it is assignable like a variable of its own type. (Basic-typed
+		// variables inside literals are left out: the implementation
+		// converts them like constants and the specification's wording on
+		// them is open to both readings.)
+		t2 := types[zzChoice("valtype", len(types))]
+		if !zzIsComp(t2) {
+			zzAssume(false)
+		}
+		setup = "w:" + t2 + "\n"
+		switch kind {
+		case 6:
+			val, dyn = "[w]", "[]"+t2
+		case 7:
+			val, dyn = "{k:w}", "{}"+t2
+		case 8:
+			lit := zzLit(t2)
+			if lit == "" {
+				zzAssume(false)
+			}
+			val, dyn = "[w "+lit+"]", "[]"+t2
+		}
+		want = t == dyn || t == "any"
 	case 1:
 		t2 := types[zzChoice("valtype", len(types))]
 		val = zzLit(t2)
@@ -191,6 +275,11 @@ func ZZC04Assign() {
 	p2 := &zzPlat{}
 	ev2 := NewEvaluator(p2)
 	rerr := ev2.Run(src)
+	if rtPanic {
+		zzAssert(rerr != nil && zzAcceptableErr(rerr), "C04: accepted program ends with the documented panic")
+		zzWitness("end")
+		return
+	}
 	zzAssert(rerr == nil, "C04: accepted program runs")
 	wantType := t
 	if t == "any" {
@@ -253,12 +342,68 @@ func ZZC04Infer() {
 // range operand typing, for operands that are variables of each type.
 func ZZC04Ops() {
 	types := zzTypes(1)
-	ctx := zzChoice("ctx", 8)
+	ctx := zzChoice("ctx", 9)
 	t1 := types[zzChoice("t1", len(types))]
 	src := "a:" + t1 + "\n"
 	want := false
 	resType := ""
 	switch ctx {
+	case 8: // binary operator with at least one literal operand (constants and empty literals)
+		ops := []string{"+", "-", "*", "/", "%", "<", "<=", ">", ">=", "==", "!=", "and", "or"}
+		op := ops[zzChoice("op", len(ops))]
+		pool := []struct{ lit, k string }{
+			{"1", "num"}, {"\"s\"", "string"}, {"true", "bool"}, {"[1]", "[]num"}, {"{a:1}", "{}num"}, {"[1 \"s\"]", "[]any"},
+			{"[]", "E[]"}, {"{}", "E{}"},
+		}
+		l, r := zzChoice("lop", len(pool)+1), zzChoice("rop", len(pool))
+		src = ""
+		var lx, lk string
+		if l == len(pool) {
+			lx, lk = "a", t1
+			src = "a:" + t1 + "\n"
+		} else {
+			lx, lk = pool[l].lit, pool[l].k
+			if t1 != "num" {
+				zzAssume(false) // t1 is unused: explore this case once
+			}
+		}
+		rx, rk := pool[r].lit, pool[r].k
+		if zzChoice("swap", 2) == 1 {
+			lx, lk, rx, rk = rx, rk, lx, lk
+		}
+		src += "r := " + lx + " " + op + " " + rx + "\nprint (typeof r)\n"
+		isArrK := func(k string) bool { return k == "E[]" || zzIsArr(k) }
+		isMapK := func(k string) bool { return k == "E{}" || zzIsMap(k) }
+		match := lk == rk || lk == "E[]" && isArrK(rk) || rk == "E[]" && isArrK(lk) || lk == "E{}" && isMapK(rk) || rk == "E{}" && isMapK(lk)
+		conc := func(k, other string) string { // the type an empty literal takes next to other
+			if k == "E[]" || k == "E{}" {
+				if other == "E[]" || other == "E{}" || !zzIsComp(other) {
+					return k[1:] + "any"
+				}
+				return other
+			}
+			return k
+		}
+		switch op {
+		case "+":
+			want = match && (lk == "num" || lk == "string" || isArrK(lk))
+			resType = conc(lk, rk)
+		case "*":
+			want = lk == "num" && rk == "num" || isArrK(lk) && rk == "num"
+			resType = conc(lk, rk)
+		case "-", "/", "%":
+			want = lk == "num" && rk == "num"
+			resType = "num"
+		case "<", "<=", ">", ">=":
+			want = match && (lk == "num" || lk == "string")
+			resType = "bool"
+		case "==", "!=":
+			want = match
+			resType = "bool"
+		default:
+			want = lk == "bool" && rk == "bool"
+			resType = "bool"
+		}
 	case 0: // binary operator
 		ops := []string{"+", "-", "*", "/", "%", "<", "<=", ">", ">=", "==", "!=", "and", "or"}
 		op := ops[zzChoice("op", len(ops))]
@@ -334,12 +479,20 @@ func ZZC04Ops() {
 		zzLog("C04 ops:\n" + src + msg)
 	}
 	zzAssert((err == nil) == want, "C04 ops: an operand combination is accepted exactly when the specification's tables allow it")
-	if err == nil && resType != "" && ctx <= 5 {
+	if err == nil && resType != "" && (ctx <= 5 || ctx == 8) {
 		// static result type as recorded by the parser for the declared r
 		zzReach("ops-accepted")
 		for _, st := range prog.Statements {
 			if d, ok := st.(*parser.InferredDeclStmt); ok && d.Decl.Var.Name == "r" {
 				zzAssert(d.Decl.Var.Type().String() == resType, "C04 ops: static result type is the one the specification gives")
+			}
+		}
+		if ctx == 8 {
+			rerr := ev.Eval(prog)
+			if rerr == nil {
+				zzAssert(p.out() == "print:"+resType+"\n", "C04 ops: the value of an accepted operation has the static result type")
+			} else {
+				zzAssert(zzAcceptableErr(rerr), "C04 ops: an accepted operation on literals ends with a result or a documented panic")
 			}
 		}
 	}
